@@ -15,6 +15,11 @@ def plan(tier):
     p.append((S.T3(), 1 if q else 2, 3))
     p.append((S.T13(), 1 if q else 2, 2))
     p.append((S.T3(lazy=True).variant("/lazy"), 1, 2))
+    # other vm variants: both vms of the two-object test then need equally named setup
+    fed = {"vm1": "only Fedora\n", "vm2": "only Win10\n", "vm3": "only Ubuntu\n"}
+    p.append((S.T3(vm_strs=fed).variant("/vm1=Fedora"), 1, 1))
+    p.append((S.T3("net1", vm_strs={"vm1": "only Fedora\n", "vm2": "only Win7\n", "vm3": "only Ubuntu\n"}).variant("/vm1=Fedora,vm2=Win7"), 1, 0.5))
+    p.append((S.T13(vm_strs={"vm1": "", "vm2": "only Win10\n", "vm3": "only Ubuntu\n"}).variant("/vm1=any"), 0 if q else 1, 1))
     p.append((S.T2("cluster1.net6 cluster1.net7 cluster2.net6").variant("/clusters"), 1 if q else 2, 2))
     p.append((S.T2("net1 net3 net5", vm_strs={"vm1": "", "vm2": "only Win10\n", "vm3": "only Ubuntu\n"}).variant("/restricted,vm1=any"), 0 if q else 1, 2))
     # histories: every subset of the producible vm1 states in the shared pool (T2) ...
